@@ -7,9 +7,19 @@ from core import coqrun
 
 ID = 'C13'
 PROPERTY_FILE = 'C13/Property.v'
-PROPERTY_FILES = ['C13/Property.v', 'C13/QuatProperty.v']
+PROPERTY_FILES = ['C13/Property.v', 'C13/QuatProperty.v', 'C13/TrajFlocqProperty.v']
 LEVEL = 'proof'
-ALLOWED_AXIOMS = {'C13/Property.v': (), 'C13/QuatProperty.v': coqrun.REAL_AXIOMS}
+# primitive-float / primitive-integer declarations and the stdlib's FloatAxioms, as Print Assumptions lists them
+FLOAT_NAMES = {'FloatAxioms.Prim2SF_valid', 'FloatAxioms.SF2Prim_Prim2SF', 'FloatAxioms.Prim2SF_SF2Prim', 'FloatAxioms.mul_spec',
+               'PrimFloat.float', 'PrimFloat.eqb', 'PrimFloat.abs', 'PrimFloat.div', 'PrimFloat.frshiftexp',
+               'PrimFloat.ldshiftexp', 'PrimFloat.ltb', 'PrimFloat.mul', 'PrimFloat.normfr_mantissa', 'PrimFloat.of_uint63',
+               'PrimFloat.opp', 'PrimInt63.int', 'PrimInt63.eqb', 'PrimInt63.land', 'PrimInt63.lor', 'PrimInt63.lsl',
+               'PrimInt63.lsr', 'PrimInt63.sub',
+               # Print Assumptions prints some primitives unqualified
+               'abs', 'div', 'frshiftexp', 'ldshiftexp', 'ltb', 'mul', 'normfr_mantissa', 'of_uint63', 'opp', 'float', 'eqb',
+               'Prim2SF_valid', 'SF2Prim_Prim2SF', 'Prim2SF_SF2Prim', 'mul_spec'}
+ALLOWED_AXIOMS = {'C13/Property.v': (), 'C13/QuatProperty.v': coqrun.REAL_AXIOMS,
+                  'C13/TrajFlocqProperty.v': set(coqrun.REAL_AXIOMS) | FLOAT_NAMES}
 TRUSTED_BASE = [
     'C13/Model.v is hand-written from cflib/utils/encoding.py and led_driver_memory.py; tied by exhaustive '
     'differential evaluation on every run (all fp16 patterns, all level x intensity pairs per LED channel)',
@@ -548,6 +558,44 @@ def _check_start(c):
     return None
 
 
+def _check_segment(c):
+    """property text on CompressedSegment.pack: every control point within one unit, overflow raises, layout"""
+    import math as _m
+    from fractions import Fraction
+    dur, ex, ey, ez, ew = c
+    out = _impl_seg(c)
+    vals = [dur] + list(ex) + list(ey) + list(ez) + list(ew)
+    finite = all(_m.isfinite(x) for x in vals)
+    args = [_dbl(dur)] + [[_dbl(x) for x in e] for e in (ex, ey, ez, ew)]
+    if not finite:
+        if out != [-1]:
+            return {'class': 'traj_segment_nonfinite_encoded', 'case': {'fn': 'traj_segment', 'args': args}, 'observed': out}
+        return None
+    exact = [Fraction(x) * 1000 for e in (ex, ey, ez) for x in e] + [Fraction(_m.degrees(x)) * 10 for x in ew]
+    dms = Fraction(dur) * 1000
+    if out == [-1]:
+        if all(-32767 <= v <= 32767 for v in exact) and 0 <= dms <= 65534:
+            return {'class': 'traj_segment_raises_in_range', 'case': {'fn': 'traj_segment', 'args': args}, 'observed': 'raised'}
+        return None
+    n = len(exact)
+    if len(out) != 3 + 2 * n:
+        return {'class': 'traj_segment_layout', 'case': {'fn': 'traj_segment', 'args': args}, 'observed': out}
+    types = out[0]
+    want = 0
+    for k, e in enumerate((ex, ey, ez, ew)):
+        want |= {0: 0, 1: 1, 3: 2, 7: 3}[len(e)] << (2 * k)
+    got_d = out[1] | (out[2] << 8)
+    if types != want or not abs(got_d - dms) < 1 + Fraction(1, 10 ** 9):
+        return {'class': 'traj_segment_layout', 'case': {'fn': 'traj_segment', 'args': args}, 'observed': out}
+    got = struct.unpack('<%dh' % n, bytes(out[3:]))
+    for g, v in zip(got, exact):
+        if not abs(g - v) < 1 + Fraction(1, 10 ** 9):
+            return {'class': 'traj_segment_resolution', 'case': {'fn': 'traj_segment', 'args': args},
+                    'expected': float(v), 'observed': list(got),
+                    'detail': 'a control point differs from the exact value by a unit or more (wrap-around instead of raising?)'}
+    return None
+
+
 def oracle_streams(ctx, deep=False):
     fails = []
     rng = _random.Random(ctx.seed * 104729 + 7)
@@ -572,7 +620,11 @@ def oracle_streams(ctx, deep=False):
         f = _check_start(c)
         if f:
             fails.append(f)
-    return {'evaluations': 3 * n, 'failures': fails,
+    for c in _gen_seg(rng, n):
+        f = _check_segment(c)
+        if f:
+            fails.append(f)
+    return {'evaluations': 4 * n, 'failures': fails,
             'rule': 'angle stream vs numpy.float16 reference; range reports vs struct reference; CompressedStart vs exact '
                     'rational millimetres / decidegrees (< 1 unit, overflow raises)'}
 
@@ -582,11 +634,20 @@ def _replay_lh(c):
     return None if a == r else {'expected': r, 'observed': a}
 
 
+def _unhex(x):
+    return float('nan') if x == 'nan' else float.fromhex(x)
+
+
 def _replay_start(c):
-    return _check_start(tuple(float('nan') if x == 'nan' else float.fromhex(x) for x in c['args']))
+    return _check_start(tuple(_unhex(x) for x in c['args']))
 
 
-_REPLAYERS = {'lh_angle': _replay_lh, 'traj_start': _replay_start}
+def _replay_segment(c):
+    a = c['args']
+    return _check_segment((_unhex(a[0]),) + tuple([_unhex(x) for x in e] for e in a[1:]))
+
+
+_REPLAYERS = {'lh_angle': _replay_lh, 'traj_start': _replay_start, 'traj_segment': _replay_segment}
 
 
 def _merge(a, b):
